@@ -37,6 +37,8 @@ def gen_cases(ctx):
         inputs.append(dict(kind="gen", name="gen%d" % i, gseed=rng.randrange(1 << 30)))
     for i in range(8 if quick else 80):
         inputs.append(dict(kind="late", name="late%d" % i, gseed=rng.randrange(1 << 30)))
+    for i in range(8 if quick else 80):
+        inputs.append(dict(kind="switch", name="switch%d" % i, gseed=rng.randrange(1 << 30)))
     maxcuts = (10 if quick else 48)
     if ctx.params.get("cases"):
         maxcuts = max(1, ctx.params["cases"] // max(1, len(inputs)))
@@ -98,7 +100,40 @@ def late_definition_input(r):
     return t
 
 
+def print_switch_input(r):
+    """two or three SELECTED_OUTPUT numbers defined once; later simulations switch persistent options (PRINT -selected_output, SELECTED_OUTPUT -active, PRINT -reset,
+    KNOBS) on and off between reactions without repeating the blocks: which rows exist must not depend on where the call boundaries fall"""
+    f = gens.fmt
+    t = "SOLUTION 1\n pH %s\n Na %s\n Cl %s charge\n Ca %s\n C(4) %s\n" % (f(round(r.uniform(6, 8.5), 2)), f(gens.loguni(r, 1, 50)), f(gens.loguni(r, 1, 50)), f(gens.loguni(r, 0.1, 5)), f(gens.loguni(r, 0.1, 5)))
+    nums = sorted(r.sample([1, 2, 3, 5, 8], r.randint(2, 3)))
+    cols = [" -pH true\n -totals Na\n", " -totals Cl Ca\n -ionic_strength true\n", " -molalities Na+ Cl-\n -alkalinity true\n", " -si Calcite\n -pe true\n"]
+    for n in nums:
+        t += "SELECTED_OUTPUT %d\n -reset false\n" % n + r.choice(cols)
+        if r.random() < 0.3:
+            t += "USER_PUNCH %d\n -headings mu\n 10 PUNCH MU\n" % n
+    t += "END\n"
+    cur = 1
+    for k in range(r.randint(3, 6)):
+        w = r.random()
+        if w < 0.45:
+            t += "PRINT\n -selected_output %s\n" % r.choice(["false", "false", "true"])
+        elif w < 0.6:
+            t += "SELECTED_OUTPUT %d\n -active %s\n" % (r.choice(nums), r.choice(["false", "true"]))
+        elif w < 0.7:
+            t += "PRINT\n -reset %s\n" % r.choice(["false", "true"])
+        elif w < 0.8:
+            t += "KNOBS\n -iterations %d\n -step_size %d\n" % (r.choice([150, 200]), r.choice([10, 100]))
+        t += "USE solution %d\nREACTION %d\n %s 1\n %s mmol\n" % (cur, k + 1, r.choice(["NaCl", "HCl", "NaOH", "CaCl2"]), f(gens.loguni(r, 0.05, 2)))
+        if r.random() < 0.6:
+            cur += 1
+            t += "SAVE solution %d\n" % cur
+        t += "END\n"
+    return t
+
+
 def _input_text(ctx, inp):
+    if inp["kind"] == "switch":
+        return print_switch_input(ctx.rng("switch", inp["gseed"])), os.path.join(ctx.db, "phreeqc.dat")
     if inp["kind"] == "example":
         return examples.text(ctx.repo, inp["name"]), examples.db(ctx.repo, inp["name"])
     if inp["kind"] == "late":
